@@ -4,13 +4,14 @@ CONSTANTS
  VOID = 1000
  Deltas <- DeltasQ
  Bounds <- BoundsQ
+ Reports <- RepQ
  PhcBounds <- PhcQ
  PhcConfigured = TRUE
  Drift = 50000
  MaxPolls = 3
- MaxTicks = 3
+ MaxTicks = 2
  MaxStarts = 2
  PreSyncPolicy = "latch"
-INVARIANTS TypeOK Tracks NoTrustBeforeMeasure GraceSchedule PhcRule AsOfBeforeReply
-PROPERTIES EveryOutcomePublishes
+INVARIANTS TypeOK Tracks NoTrustBeforeMeasure PhcRule AsOfBeforeReply
+PROPERTIES EveryOutcomePublishes GraceSchedule
 CHECK_DEADLOCK FALSE
